@@ -144,10 +144,13 @@ func (listener *tcpLineListener) runConnection(connLogger logger.Logger, conn *n
 	defer listener.taskCounter.Done()
 	connLogger.Info("started")
 
+	// The socket must not be closed before the sink is: its descriptor is the client number, and a new connection
+	// getting the same number while the old sink is still in place would share that sink. Deferred calls run in reverse order.
+	connAborter := listener.launchConnectionCloser(connLogger, conn)
+	defer connAborter.Signal()
+
 	recvChan := listener.receiver.NewSink(conn.RemoteAddr().String(), clientNumber)
 	defer recvChan.Close()
-
-	connAborter := listener.launchConnectionCloser(connLogger, conn)
 
 	// short timeout for periodic flushing
 	connReader := listener.createConnectionReader(connLogger, conn)
@@ -188,7 +191,6 @@ func (listener *tcpLineListener) runConnection(connLogger logger.Logger, conn *n
 			if !util.IsNetworkClosed(readErr) {
 				connLogger.Warn("read() error: ", readErr)
 			}
-			connAborter.Signal()
 			vhook.At("listener.conn.afterAbort")
 		}
 		break
